@@ -19,6 +19,7 @@ RULE = (
     "of wrong length, replies whose first byte is neither 7F nor sid+0x40 (incl. valid replies of other services and the reflected "
     "request), genuine replies with exactly one echoed byte changed, genuine replies with intact echo but broken length. A reference "
     "matcher written from the statement says must-accept / must-mismatch / must-malformed (or abstains). Exhaustive over "
+    "Further reply kinds: the requested sub-function with bit 7 set, nothing but the response id (typed and raw requests). "
     "UDSErrorCodes for the negative-response exception mapping. Non-trivial: pair in must-mismatch or must-malformed, or genuine "
     "with a non-empty echo. Distinct by (request bytes, reply bytes)."
 )
